@@ -1715,6 +1715,12 @@ fn rate_to_n_alpha(rate: f32) -> (u64, f64) {
     (inv_rate_int, (inv_rate_int + 1) as f64 - inv_rate)
 }
 
+/// Verification accessor (cfg `metrique_verif` only): the private rate -> (n, alpha) split.
+#[cfg(metrique_verif)]
+pub fn verif_rate_to_n_alpha(rate: f32) -> (u64, f64) {
+    rate_to_n_alpha(rate)
+}
+
 fn rate_to_n<R: RngCore>(rate: f32, rng: &mut R) -> u64 {
     if rate < 1.0 / (i64::MAX as f32) {
         u64::MAX
